@@ -305,7 +305,16 @@ func r06_4(c *Ctx, rule string) {
 			term[c.reg(call)] = call
 		}
 	})
-	c.R.Exact(rule, "terminator sends in sendFile", len(term), 1)
+	c.R.Floor(rule, "terminator sends in sendFile", len(term), 1)
+	// one terminator per file: no path sends two
+	for _, t := range term {
+		t := t
+		hit, und := c.ReachAfter(sf, t, func(in ssa.Instruction) bool {
+			_, isTerm := term[c.reg(in.(ssa.Value))]
+			return isTerm
+		})
+		c.R.Check(hit == nil && !und, rule, c.siteName(t)+"/terminator-not-repeated", c.pos(t), "no second terminator can follow", "after the terminator was sent another one can be sent on the same path: the receiver would close the next file's pipe early")
+	}
 	x := c.explorer(sf)
 	okRet := 0
 	x.Target = func(in ssa.Instruction, st *eng.State) bool {
